@@ -21,7 +21,8 @@ func init() {
 			"C15.4 Allocation.Close and removeTCPConnection are only entered with Manager.lock held (entry lockset over all callers) and close(a.closed) is guarded by the closed-test; " +
 			"C15.5 the relay goroutines return only on the read/accept error edge after calling DeleteAllocation(a.fiveTuple) (other returns are reported as advisories), and the server loops close the manager / delete the connection's allocation after their read loop ends; " +
 			"C15.6 every lifecycle callback is invoked in the function that performs the insert/remove it reports and only on the path where that insert/remove actually happened; " +
-			"C15.7 in CreateAllocation no return lies between arming the lifetime timer and publishing the allocation in the table, and the insert precedes the created-callback.",
+			"C15.7 in CreateAllocation no return lies between arming the lifetime timer and publishing the allocation in the table, and the insert precedes the created-callback; " +
+			"C15.8 (=C04.2) every 5-tuple handed to the manager — including the teardown tuple after a stream connection ends — is built from the addresses of that very request/connection.",
 		NotCovered: "'exactly once', counts at quiescence and goroutine drain are dynamic; what a relay generator or callback does internally.",
 		Run:        runC15,
 	})
@@ -36,6 +37,10 @@ func runC15(c *Ctx) {
 	ruleRelayLoopExits(c, "C15.5")
 	ruleCallbackPairing(c, "C15.6")
 	ruleArmThenPublish(c, "C15.7")
+	// the teardown after a control connection ends deletes the allocation under the very
+	// 5-tuple it was created under (shared with C04.2): a tuple built from anything else
+	// (the listener's address) names no allocation and the release silently does nothing
+	ruleRequestTuples(c, "C15.8")
 }
 
 // ---------------------------------------------------------------------------------
